@@ -170,10 +170,10 @@ def build_cli_tools():
             exe = os.path.join(CACHE, "bin", f"{name}-{key[:16]}")
             if not os.path.exists(exe):
                 os.makedirs(os.path.dirname(exe), exist_ok=True)
-                r = sh(["g++"] + VARIANTS["asan"] + libobjs + [res[t]] + LINK_LIBS + ["-o", exe + ".tmp"])
+                r = sh(["g++"] + VARIANTS["asan"] + libobjs + [res[t]] + LINK_LIBS + ["-o", exe + ".tmp%d" % os.getpid()])
                 if r.returncode != 0:
                     raise BuildError("link:\n" + r.stderr[-4000:])
-                os.replace(exe + ".tmp", exe)
+                os.replace(exe + ".tmp%d" % os.getpid(), exe)
             out[name] = exe
         return out
 
